@@ -134,6 +134,17 @@ CHECKS["C05"] = dict(
     design="DESIGN.md section 3 / C05",
 )
 
+CHECKS["C06"] = dict(
+    technique="abstract interpretation of the gradient from_element classmethods and of as_user_space_units (for every class in the hierarchy defining it) over symbolic boxes and transforms with rational-function comparison, operand-order and straight-line call-site checks for the CTM clone, table and statement-order checks for translation folding and template inlining",
+    text="Colour at a point is not decided. Decided necessary conditions: gradient attributes are parsed with the specification defaults and scaled by "
+         "the right axis of the right reference box for every presence pattern; bounding-box units are converted by composing gradientTransform "
+         "first and the unit-square->bbox map second without touching coordinates; the CTM is applied after gradient space, from the untransformed "
+         "shape's bbox, for every transformed shape (no cache); only point-valued pairs are translated; decomposition recomposes; template "
+         "inheritance honours own-wins / stops-if-absent / chain-first.",
+    note="Not applicable: colour equality at interior points, 6-decimal rounding error. Scope as in the property (bbox units need unaltered geometry).",
+    design="DESIGN.md section 3 / C06",
+)
+
 NOT_APPLICABLE = {}
 
 
